@@ -77,8 +77,10 @@ CLAIMED["C02"]["tech"] += "; a builder-made Server and Client fed a request with
 CLAIMED["C11"]["engine"] = "codec+client-life"
 CLAIMED["C11"]["tech"] += "; the built-in ping auto-reply of a builder-made Client and of a builder-made Server, observed on the wire by a scripted peer (C11_PingReply)"
 CLAIMED["C14"]["engine"] = "hs-server+server-life+transport"
+CLAIMED["C17"]["engine"] = "channel+client-life"
+CLAIMED["C17"]["tech"] += "; the server also asks its clients and checks the session context of the response-command handler; a gateway session listened on with a context that descends from another session's handler; three sessions pinging a builder-made server at once (CliObs C17_SrvPingIsolated)"
 CLAIMED["C18"]["engine"] = "server-life+listener"
-CLAIMED["C18"]["tech"] += "; plus TLA+ model Listener.tla (listen / dial / accept / close on one listener of each kind, every sequence inside the bound) executed on real listeners, TLC monitor LisObs (C18_ListenerStops: a closed listener takes no dial and hands out no connection)"
+CLAIMED["C18"]["tech"] += "; plus TLA+ model Listener.tla (listen / dial / accept / close on one listener of each kind, every sequence inside the bound) executed on real listeners, TLC monitor LisObs (C18_ListenerStops: a closed listener takes no dial and hands out no connection; C18_ListenerReleases: a connection that had not finished its websocket upgrade is closed with the listener), plus a Server over two listeners whose first one fails to close / whose second one cannot bind"
 CLAIMED["C08"]["engine"] = "hs-client+client-life"
 CLAIMED["C08"]["tech"] += "; at the level of the Client facade: Client.Establish against a scripted server whose first connection is answered with another state, TLC monitor CliObs (C08_ClientTruthful)"
 CLAIMED["C09"]["tech"] += "; websocket dial attributes (ws / wss, with and without a TLS configuration): both ends must report the encryption of the URL scheme, TLC monitor TransObs (C09_TransportEncryption)"
@@ -128,7 +130,7 @@ m = {
     "serves_properties": ["C15"],
     "kind_free_text": "TLA+ wait automata of the context-taking operations checked by TLC against the stated bound, each case timed on the real operation, TLC trace monitor"},
    {"name": "client-life", "path": "spec/ClientLife.tla spec/CliObs.tla harness/clid tools/engines/clientlife.py",
-    "serves_properties": ["C19", "C08", "C13", "C11", "C04", "C02"],
+    "serves_properties": ["C19", "C08", "C13", "C11", "C04", "C02", "C17"],
     "kind_free_text": "TLA+ model of the Client's channel cache and listener loop with safety and liveness checked by TLC, fault injection against a real Client, TLC trace monitor"},
    {"name": "channel", "path": "spec/Channel.tla spec/ChannelMC.tla spec/Iso.tla spec/IsoMC.tla spec/ChanProps.tla spec/ChanObs.tla harness/chand tools/engines/chan.py",
     "serves_properties": ["C04", "C06", "C13", "C17"],
